@@ -42,6 +42,8 @@ def oracle(ctx, specs, k, rnd, dups):
         merged = None
     if merged is not None and vs:
         for pos, Tm in zip(("argument", "return", "yield"), merged):
+            if Tm is None:
+                return ctx.fail("C05/uncovered-value", [specs, k, "via-traces"], f"merged over call traces: the {pos} position, recorded in every trace, has no type at all")
             try:
                 witnessed(Tm, vt)
             except NotTight as e:
@@ -51,8 +53,10 @@ def oracle(ctx, specs, k, rnd, dups):
     # the merge as the pipeline performs it: on per-value types that went through the store encoding
     vs2 = [vals.build(s) for s in specs]
     try:
-        Ts = tinfer.infer_via_store(vs2, k)
+        Ts, vs2 = tinfer.infer_via_store_kept(vs2, k)
     except Exception:
+        return
+    if not vs2:
         return
     try:
         witnessed(Ts, vs2)
